@@ -44,13 +44,22 @@ def _generate_model_cases(gen, tier):
         weights = [2, 2, 5, 2, 3, 1, 1, 1, 2, 1, 2]
         t = gen.tree(depth=depth, width=gen.rng.choice([3, 4, 5]), weights=weights)
         cfg = gen.cfg()
-        lines = [op('flatten', cfg, t), op('is_leaf', cfg, t)]
+        lines = [op('flatten', cfg, t), op('is_leaf', cfg, t), op('replace_nones', cfg, t)]
         ks = []
         keysets(t, ks)
         for k in ks[:4]:
             if len(k) >= 2:
                 lines.append(op('sort', *k))
         cases.append({'lines': lines, 'o': {'cfg': render(cfg), 'tree': render(t), 'perm_seed': gen.rng.randrange(10**6)}})
+    # a registered class at the *root* (registered globally, in the requested namespace only, in another namespace, not at
+    # all) holding None: every wrapper has to classify it the way flatten does (tree_replace_nones, tree_is_leaf, leaves)
+    for ns in ('', 'a', 'b', 'zz'):
+        for c in (0, 1, 2, 3, 4, 5):
+            for nil in (False, True):
+                t = [A('U'), c, gen.md(), A('ok'), gen.leaf(0), A('N'), [A('T'), A('N'), gen.leaf(0)]]
+                cfg = gen.cfg(ns=ns, nil=nil, pred=0)
+                cases.append({'lines': [op('flatten', cfg, t), op('is_leaf', cfg, t), op('replace_nones', cfg, t)],
+                              'o': {'cfg': render(cfg), 'tree': render(t), 'perm_seed': gen.rng.randrange(10**6)}})
     # exhaustive permutations of small key sets through the sort op
     pools = [
         [[A('i'), 1], [A('i'), 2], [A('s'), 'a'], [A('s'), 'b']],
@@ -368,6 +377,21 @@ def oracle(impl, o):
             if not (spec == spec2) or hash(spec) != hash(spec2):
                 fails.append({'key': 'dict-order-spec', 'what': 'equal dicts with different insertion order give unequal treespecs / hashes',
                               'other': render(s2)})
+        # tree_replace_nones: the None objects among the none_is_leaf=True leaves (same namespace, no predicate) replaced
+        try:
+            want_t = ref_leaves(tree, None, True, ns, insertion)
+        except Exception:
+            want_t = None
+        if want_t is not None:
+            sentinel = object()
+            rn = _outcome(lambda: optree.tree_replace_nones(sentinel, tree, namespace=ns))
+            if rn[0] != 'ok':
+                fails.append({'key': 'replace-nones-raises', 'what': f'tree_replace_nones raised {rn[1]}'})
+            else:
+                got = optree.tree_leaves(rn[1], none_is_leaf=True, namespace=ns)
+                if not same(got, [sentinel if x is None else x for x in want_t]):
+                    fails.append({'key': 'replace-nones', 'what': 'tree_replace_nones does not replace exactly the None leaves the documented '
+                                  'rules give for this namespace', 'expected_leaves': len(want_t), 'got_leaves': len(got)})
         # none filter
         if pred is None or not _pred_true_on_none(pred):
             kw_t = dict(kw, none_is_leaf=True)
@@ -386,6 +410,13 @@ def oracle(impl, o):
             if not same(l0, l1):
                 fails.append({'key': 'pred-refine', 'what': 'flattening the leaves obtained under a predicate differs from flattening without it'})
     return fails
+
+
+def _outcome(f):
+    try:
+        return ('ok', f())
+    except Exception as e:  # noqa: BLE001
+        return ('err', type(e).__name__)
 
 
 def _pred_true_on_none(pred):
